@@ -79,12 +79,15 @@ impl Prop for C14 {
         let mut rng = Rng::keyed(seed, &format!("c14{}{}", k, i));
         let a = rand_subset(k, &mut rng, 6); let b = rand_subset(k, &mut rng, 6);
         for op in BINOPS.iter().chain(RELS.iter()) {
-          let cell = format!("kind={};op={};a={};b={}", k, op, if a.is_empty() { "empty" } else { "nonempty" }, if b.is_empty() { "empty" } else { "nonempty" });
-          out.push(Case { id: format!("{};n={}", cell, i), cell, input: json!({"mode": "binop", "kind": k, "a": a, "b": b, "op": op}) });
+          // operand forms: each operand is written as a variable (v) or inline as a literal (l); all four combinations per (kind, op)
+          let forms = ["vv", "vl", "lv", "ll"][i % 4];
+          let cell = format!("kind={};op={};a={};b={};forms={}", k, op, if a.is_empty() { "empty" } else { "nonempty" }, if b.is_empty() { "empty" } else { "nonempty" }, forms);
+          out.push(Case { id: format!("{};n={}", cell, i), cell, input: json!({"mode": "binop", "kind": k, "a": a, "b": b, "op": op, "forms": forms}) });
         }
         // membership of every universe element
-        let cell = format!("kind={};op=member;a={}", k, if a.is_empty() { "empty" } else { "nonempty" });
-        out.push(Case { id: format!("{};n={}", cell, i), cell, input: json!({"mode": "member", "kind": k, "a": a}) });
+        let forms = ["lv", "vv", "ll", "vl"][i % 4];
+        let cell = format!("kind={};op=member;a={};forms={}", k, if a.is_empty() { "empty" } else { "nonempty" }, forms);
+        out.push(Case { id: format!("{};n={}", cell, i), cell, input: json!({"mode": "member", "kind": k, "a": a, "forms": forms}) });
         // literal construction in every rotation of the insertion order
         let cell = format!("kind={};op=literal", k);
         out.push(Case { id: format!("{};n={}", cell, i), cell, input: json!({"mode": "literal", "kind": k, "a": a}) });
@@ -93,8 +96,9 @@ impl Prop for C14 {
         // chained: (a op b) op2 c
         let c = rand_subset(k, &mut rng, 4);
         let op1 = *rng.pick(&BINOPS); let op2 = *rng.pick(&BINOPS);
-        let cell = format!("kind={};op=chain", k);
-        out.push(Case { id: format!("{};n={}", cell, i), cell, input: json!({"mode": "chain", "kind": k, "a": a, "b": b, "c": c, "op1": op1, "op2": op2}) });
+        let forms = ["vvv", "lvv", "vlv", "vvl", "llv", "lll"][i % 6];
+        let cell = format!("kind={};op=chain;forms={}", k, forms);
+        out.push(Case { id: format!("{};n={}", cell, i), cell, input: json!({"mode": "chain", "kind": k, "a": a, "b": b, "c": c, "op1": op1, "op2": op2, "forms": forms}) });
       }
     }
     // comprehensions over numeric sets
@@ -164,7 +168,10 @@ impl Prop for C14 {
           let mut n = 0;
           for (sp, id) in universe(k) {
             for (op, neg) in [("∈", false), ("∉", true)] {
-              let src = format!("{} {} a", sp, op);
+              let forms = case.input["forms"].as_str().unwrap_or("lv");
+              let el = if forms.starts_with('v') { let _ = s.eval(&format!("e{} := {}", id, sp)); format!("e{}", id) } else { sp.to_string() };
+              let st = if forms.ends_with('v') { "a".to_string() } else { lit(k, &a) };
+              let src = format!("{} {} {}", el, op, st);
               match s.eval(&src) { Ev::Ok(CVal::S(_, Sc::B(b))) => { let want = ia.contains(&id) != neg; if b != want { return Outcome::violated("membership-wrong", format!("{} with a = {} gave {} expected {}", src, va.show(), b, want)); } n += 1; } other => { if a.is_empty() { continue; } return Outcome::violated("error-instead-of-value", format!("{} with a = {} -> {}", src, va.show(), other.show())); } }
             }
           }
@@ -179,14 +186,17 @@ impl Prop for C14 {
           let c = getv("c"); let (op1, op2) = (case.input["op1"].as_str().unwrap(), case.input["op2"].as_str().unwrap());
           let rc = s.eval(&format!("c := {}", lit(k, &c))); let vc = tri!(check(&rc, "c")); let ic = tri!(to_ids(&vc, &m));
           if a.is_empty() || b.is_empty() || c.is_empty() { return Outcome::trivial(); }
-          let src = format!("(a {} b) {} c", op1, op2);
+          let forms = case.input["forms"].as_str().unwrap_or("vvv").as_bytes().to_vec();
+          let sp = |i: usize, name: &str, ids: &Vec<usize>| if forms[i] == b'v' { name.to_string() } else { lit(k, ids) };
+          let src = format!("({} {} {}) {} {}", sp(0, "a", &a), op1, sp(1, "b", &b), op2, sp(2, "c", &c));
           let ev = s.eval(&src); let v = tri!(check(&ev, &format!("{} with a={} b={} c={}", src, va.show(), vb.show(), vc.show())));
           let want = apply(op2, &apply(op1, &ia, &ib), &ic);
           if tri!(to_ids(&v, &m)) != want { return Outcome::violated("set-algebra-wrong", format!("{} with a={} b={} c={} gave {}", src, va.show(), vb.show(), vc.show(), v.show())); }
           return Outcome::held();
         }
         let op = case.input["op"].as_str().unwrap();
-        let src = format!("a {} b", op);
+        let forms = case.input["forms"].as_str().unwrap_or("vv").as_bytes().to_vec();
+        let src = format!("{} {} {}", if forms[0] == b'v' { "a".to_string() } else { lit(k, &a) }, op, if forms[1] == b'v' { "b".to_string() } else { lit(k, &b) });
         let ev = s.eval(&src);
         let both_nonempty = !a.is_empty() && !b.is_empty();
         if !both_nonempty && !ev.is_ok() { return Outcome::trivial().tag("empty-operand-rejected"); }
